@@ -5,7 +5,8 @@ case kinds (both are sent to the Lean model, `request` never returns None):
   formula  one of 25 fixed formulas, evaluated as written; the oracle judges only the shape of the record
   tree     an expression tree (nodes err / num / arr / neg / call ID / bin) rendered fully parenthesised and evaluated under
            the 13 wrappings of WRAPS, followed by each of its family producers evaluated alone (the observed error code);
-           sources: FIXED_TREES, text spelling an error code, random trees (gen), sweep 1 (producer families x operators),
+           sources: FIXED_TREES (among them arrays that HOLD error values and error values taken out of the host range
+           A5:A7), text spelling an error code, random trees (gen), sweep 1 (producer families x operators),
            sweep 2 (error operand x array operand)
 `gen` / `render` / WRAPS / CODES / `parser` / `model_env` are re-used by the plugins c01, c02 and c03.
 """
@@ -28,7 +29,7 @@ FUNCTIONS = ['hotxlfp.formulas.operators:evaluate_arithmetic', 'hotxlfp.formulas
              'hotxlfp.formulas.utils:inumbers']
 RULE = ('two case kinds, both compared with the Lean model (one c04.batch request per case carrying every form and the host '
         'environment shared with the implementation run: variables e_<tag> for the 9 codes, dates dt_a/dt_b/dt_c, blank, lists '
-        'lst_a/b/c/n; cells C3 = #DIV/0!, D4 = #N/A, B2 = 7, any other cell empty; range A1:A3; host functions RAISE_<TAG>(), '
+        'lst_a/b/c/n; cells C3 = #DIV/0!, D4 = #N/A, B2 = 7, any other cell empty; ranges A1:A3 = [[2],[3],[5]] and A5:A7 = [[#N/A],[#DIV/0!],[5]] (a column in which the host keeps error values beside a number); host functions RAISE_<TAG>(), '
         'PYRAISE(), ID()). Kind formula: 25 fixed formulas (operators, traps, nested traps, literals, raising host functions on '
         'errors). Kind tree: expression trees (all 11 binary operators, unary minus, ID() calls; skeleton depth 1..5 quick / '
         '1..7 thorough, number leaves = the 15 primes 2..47, rendered fully parenthesised) whose top is 56% a numeric '
@@ -58,8 +59,13 @@ RULE = ('two case kinds, both compared with the Lean model (one c04.batch reques
         'ISERROR(-(x)), IFERROR((x)=1,777), and with fallbacks that are false-ish values: IFERROR(x,0), IFNA(x,FALSE), '
         'IFERROR(x,"") (on an error the answers must be the integer 0 - not FALSE, not 0.0 -, the logical FALSE for #N/A - for '
         'other codes IFNA(x,FALSE) is not judged - and the empty text; on an error-free value all five IFERROR / IFNA forms must '
-        'hand the value back) - followed by each distinct family producer of the tree alone. Tree sources: 19 fixed trees (pre-1900 '
-        'date arithmetic alone and to the right of another error, array next to error, error-free {1,2}+{3,4}); 18 fixed text '
+        'hand the value back; when the bare value is a list and ISERROR, ISERR, ISNA all answer a logical without error, ISERROR must equal '
+        'ISERR or ISNA, nothing else is demanded of the three on a list) - followed by each distinct family producer of the tree alone. Tree sources: 31 fixed trees (pre-1900 '
+        'date arithmetic alone and to the right of another error, array next to error, error-free {1,2}+{3,4}; 7 arrays that HOLD '
+        'error values and are judged as error-free arrays - {1,2}/0, {1,2}/{1,0}, {4,"a"}*2, {1,NA()}, A5:A7, A5:A7*2, lst_b/0: no '
+        'trap may fire; 5 trees over an error value taken out of the host range, its code observed by evaluating the producer '
+        'alone: INDEX(A5:A7,1,1), INDEX(A5:A7,2,1), INDEX(A5:A7,1,1)+1, INDEX(A5:A7,2,1)&INDEX(A5:A7,1,1), ID(INDEX(A5:A7,1,1)): '
+        'every trap must see it); 18 fixed text '
         'trees (each code as a text literal and as a concatenation of two pieces); 700 quick / 8000 thorough random trees x '
         'scale (scale 5 in quick when a modelled function changed or the Lean build broke); 2 quick / 12 thorough rounds x '
         'scale of two sweeps. Sweep 1, 120 trees per round: each of date/text/div0/builtin 4 times, nested/cell twice: the '
@@ -67,8 +73,8 @@ RULE = ('two case kinds, both compared with the Lean model (one c04.batch reques
         '(operators taken cyclically from a shuffled list of the 11, so the four larger families meet every operator in each '
         'round), once negated to the right of a number under a random operator. Sweep 2, 85 trees per round: every + - * / x 5 '
         'array shapes x both orders as a node (c) at the top and under a further random operator with a number or error-value '
-        'producer on either side, plus one error-free array expression per shape (the traps must not fire). 1172 cases quick / '
-        '10522 thorough at scale 1. Non-trivial = every fixed formula; a tree with at least one error leaf all of whose family '
+        'producer on either side, plus one error-free array expression per shape (the traps must not fire). 1184 cases quick / '
+        '10534 thorough at scale 1. Non-trivial = every fixed formula; a tree with at least one error leaf all of whose family '
         'producers report an error when evaluated alone. When a proof or the correspondence broke and no oracle failure was '
         'found, search() generates the whole family again at scale 8 (5600 / 64000 random trees, 16 / 96 rounds), judged by the '
         'oracle only, up to the first failure. A failing tree is shrunk to a sub-tree / simplification the same oracle still '
@@ -113,11 +119,16 @@ ASSUMPTIONS = ['an expression "is an error" when Parser.parse reports exactly th
                'error',
                'when an operand of + - * / is an error value the operation evaluates to that error also when the other operand '
                'is an array (not to an array of errors); an array that merely CONTAINS an error element is not an error operand '
-               'and is not generated',
+               'and is not generated by gen or the sweeps; the 7 fixed trees that are such arrays (element-wise division by zero, '
+               'text under *, NA() inside a literal, the host range A5:A7) count as error-free array values',
+               'an error value the host keeps in a cell of a range it supplies (A5:A7) and a formula takes out with INDEX is '
+               'that error: alone, as an operand of + and &, and handed through ID it is the error operand, with the code it '
+               'reports when the INDEX call is the whole formula',
                'a call of a name that is not a registered function (#NAME? raised before any call happens) is not a function '
                'call in the sense of the statement: builtin producers are restricted to names registered in the tree under test',
-               'for an error-free ARRAY value only "no error, and IFERROR/IFNA do not substitute" is demanded (IS* of an array '
-               'is not judged)']
+               'for an error-free ARRAY value (an array holding error elements included) only "no error, and IFERROR/IFNA do '
+               'not substitute" is demanded; of IS* of an array only the consistency ISERROR = ISERR or ISNA, when all three '
+               'answer a logical; what each of them answers (FALSE, or TRUE for an error element) is not judged']
 
 CODES = {'null': '#NULL!', 'div0': '#DIV/0!', 'value': '#VALUE!', 'ref': '#REF!', 'name': '#NAME?', 'num': '#NUM!',
          'na': '#N/A', 'data': '#GETTING_DATA', 'error': '#ERROR!'}
